@@ -24,6 +24,44 @@ fn main() {
             };
             driver::run_generic(&args[2], tier)
         }
+        "part" => {
+            // the debug-assertion build's share of C03: verif part C03 <tier> <outfile>
+            if args.len() < 5 || args[2] != "C03" {
+                usage();
+            }
+            let tier = if args[3] == "thorough" { Tier::Thorough } else { Tier::Quick };
+            driver::run_c03(tier, Some(&args[4]))
+        }
+        "hunt" => {
+            // exploration aid (not a check): list distinct panic sites on the adversarial domain with a small example each
+            use proptest::strategy::{Strategy, ValueTree};
+            use proptest::test_runner::{Config, RngAlgorithm, TestRng, TestRunner};
+            use vh::props::robust::*;
+            let n: u64 = args.get(2).and_then(|s| s.parse().ok()).unwrap_or(100_000);
+            let seed: u8 = args.get(3).and_then(|s| s.parse().ok()).unwrap_or(1);
+            let mut runner = TestRunner::new_with_rng(Config::default(), TestRng::from_seed(RngAlgorithm::ChaCha, &[seed; 32]));
+            let strat = adv_strategy();
+            let mut seen: std::collections::BTreeMap<String, (u64, usize, String)> = Default::default();
+            for _ in 0..n {
+                let d = strat.new_tree(&mut runner).unwrap().current();
+                if let Some((a, b)) = adv_operands(&d) {
+                    for (op, p, sig) in strict_pair(&a, &b, &vh::exec::OPS) {
+                        let key = format!("{:?} {}:{} {}", sig, p.file.rsplit('/').next().unwrap_or(""), p.line, p.message.chars().take(40).collect::<String>());
+                        let size = vh::geom::mp_edges(&a).len() + vh::geom::mp_edges(&b).len();
+                        let e = seen.entry(key).or_insert((0, usize::MAX, String::new()));
+                        e.0 += 1;
+                        if size < e.1 {
+                            e.1 = size;
+                            e.2 = format!("{} A: {} B: {}", vh::exec::op_name(op), vh::ser::mp_to_text(&a), vh::ser::mp_to_text(&b));
+                        }
+                    }
+                }
+            }
+            for (k, v) in seen {
+                println!("{:6} {}\n       e.g. {}", v.0, k, v.2);
+            }
+            0
+        }
         "child" => vh::props::big::child_main(&args[2..]),
         "replay" => {
             if args.len() < 3 {
